@@ -932,9 +932,9 @@ func (s *verifConfSuite) runAliasDirected(c *C, newHistory func(status map[strin
 		{mk(B, []string{"c"}, nil, nil), []string{"uptodate"}},
 	}
 	firsts := map[string][]string{
-		"uptodate": {"", "disable", "remove", "switch", "alias", "revert", "remove-many"},
-		"active":   {"", "disable", "remove", "refresh", "refresh-many"},
-		"inactive": {"", "enable", "remove"},
+		"uptodate": {"", "disable", "remove", "switch", "alias", "revert", "remove-many", "remodel", "snapd-revert-down"},
+		"active":   {"", "disable", "remove", "refresh", "refresh-many", "create-recovery-system"},
+		"inactive": {"", "enable", "remove", "transition-ubuntu-core"},
 	}
 	for _, si := range sits {
 		for _, bst := range si.bSts {
@@ -949,6 +949,11 @@ func (s *verifConfSuite) runAliasDirected(c *C, newHistory func(status map[strin
 					newHistory(map[string]string{"a": "active", "b": bst, "c": cst})
 					switch first {
 					case "":
+					case "remodel", "create-recovery-system", "transition-ubuntu-core":
+						// an exclusive change is in progress: "refresh all" must then start nothing at all
+						s.doRequest(c, first, []string{}, 0, nil)
+					case "snapd-revert-down":
+						s.doRequest(c, first, []string{"snapd"}, 0, nil)
 					case "refresh-many", "remove-many":
 						l := []string{"b", "c"}
 						if first == "refresh-many" && cst != "active" {
